@@ -195,12 +195,6 @@ theorem arity_rules (v w u : ℚ) (l : List ℚ) :
 
 /-! ### Independence of the order of the points -/
 
-theorem sums_perm {pts pts' : List (ℚ × ℚ)} (h : pts.Perm pts') :
-    sN pts = sN pts' ∧ sX pts = sX pts' ∧ sY pts = sY pts' ∧ sXX pts = sXX pts' ∧ sXXX pts = sXXX pts' ∧
-    sXXXX pts = sXXXX pts' ∧ sXY pts = sXY pts' ∧ sXXY pts = sXXY pts' ∧ sYY pts = sYY pts' :=
-  ⟨by unfold sN; rw [h.length_eq], S_perm h _, S_perm h _, S_perm h _, S_perm h _, S_perm h _, S_perm h _,
-    S_perm h _, S_perm h _⟩
-
 /-- The linear fit does not depend on the order in which the points were supplied. -/
 theorem linear_perm_invariant (pts pts' : List (ℚ × ℚ)) (h : pts.Perm pts') :
     linear_fitting (fit_of pts) = linear_fitting (fit_of pts') := by
@@ -230,11 +224,6 @@ theorem general_perm_invariant (pts pts' : List (ℚ × ℚ)) (h : pts.Perm pts'
   simp only [S_perm h]
 
 /-! ### The general fit specialises to the quadratic and the linear fit -/
-
-theorem sN_ge_one {pts : List (ℚ × ℚ)} (hne : pts ≠ []) : 1 ≤ sN pts := by
-  unfold sN
-  have : 1 ≤ pts.length := List.length_pos_iff.mpr hne
-  exact_mod_cast this
 
 /-- `general_fitting(x², x, 1)` equals `quadratic_fitting` — provided `Σx⁴ · Σx² · n ≥ TOL`: below that the
     general fit raises ZeroDivisionError ("functions are null") before looking at the determinant. -/
@@ -315,15 +304,6 @@ theorem general_eq_linear (pts : List (ℚ × ℚ)) (hne : pts ≠ []) (hbig : T
   · simp only [Except.map]; congr 3 <;> ring
 
 /-! ### Degenerate data ("raise ZeroDivisionError instead of returning numbers") -/
-
-theorem const_x_sums {pts : List (ℚ × ℚ)} {c : ℚ} (h : ∀ p ∈ pts, p.1 = c) :
-    sX pts = sN pts * c ∧ sXX pts = sN pts * (c * c) ∧ sXXX pts = sN pts * (c * c * c) ∧
-    sXXXX pts = sN pts * ((c * c) * (c * c)) := by
-  refine ⟨?_, ?_, ?_, ?_⟩
-  · unfold sX sN; rw [S_congr (g := fun _ => c) (fun p hp => h p hp), S_const]
-  · unfold sXX sN; rw [S_congr (g := fun _ => c * c) (fun p hp => by rw [h p hp]), S_const]
-  · unfold sXXX sN; rw [S_congr (g := fun _ => c * c * c) (fun p hp => by rw [h p hp]), S_const]
-  · unfold sXXXX sN; rw [S_congr (g := fun _ => (c * c) * (c * c)) (fun p hp => by rw [h p hp]), S_const]
 
 /-- All abscissae equal: the linear fit raises ZeroDivisionError. -/
 theorem linear_degenerate (pts : List (ℚ × ℚ)) (hne : pts ≠ []) (c : ℚ) (h : ∀ p ∈ pts, p.1 = c) :
